@@ -69,4 +69,6 @@ func TestC09(t *testing.T) {
 	}
 	c.Rule("constructive generator, profile 'errors': nested try/catch[/finally] with and without catch variable, functions with defer statements in straight code, branches and loops, deferred host probes / script functions / closure literals (which may raise or contain try/defer), throw of strings/numbers/lists, runtime errors (pfail, undefined name, index out of range), return at every point; non-trivial = an error/return leaves an invocation with >=2 pending defers, or a deferred callee raises, or a try runs inside a deferred callee, or an error is caught in a run that also runs defers; distinct by source text")
 	h.Run(c, "errors", c.N(12000, 120000), gen, oracle)
+	c.Rule("interrupted: 1-3 nested script function invocations (arity 0-6) each with 0-3 deferred host probes plus 0-2 top-level defers; the innermost spins in tick() and the context is cancelled inside the k-th tick: every deferred probe must run exactly once, innermost invocation first, LIFO; non-trivial = >= 2 deferred probes")
+	h.Run(c, "interrupted", c.N(1500, 15000), genInt, oracleInt)
 }
